@@ -56,7 +56,7 @@ TRUSTED = [
     "for every estimator other than the naive/probe forecasters the model is the transformer machine instantiated with the table of "
     "RECORDED first results: what is checked is that the real object behaves as SOME pure function of (fitted state, arguments), not which one",
     "byte snapshots (values, dtype, index labels, index class, columns, nested cells) taken by the harness before/after each call",
-    "harness/extract/c12_static.py (ast walk: global numpy/stdlib random calls, writes to self in apply-type methods, unordered parallel collection)",
+    "harness/extract/c12_static.py (ast walk: global numpy/stdlib random calls, truthiness tests on random_state, writes to self in apply-type methods, unordered parallel collection)",
     "CPython, joblib (threading backend), pickle as black boxes",
 ]
 ASSUMPTIONS = [
@@ -65,13 +65,19 @@ ASSUMPTIONS = [
     "joblib.Parallel returns results in submission order (exercised by the `par` cases against Par.parallelMap)",
     "`predict()` without a horizon means 'the horizon given last' (by design of _OptionalForecastingHorizonMixin); its effective argument is that horizon",
     "results are compared with relative tolerance 1e-9 (BLAS / summation-order rounding is not judged), labels / shapes / error kinds exactly",
+    "OPEN finding (findings/C12.md 4): the time series forests share a RandomState INSTANCE between parallel tree fits (schedule-dependent under n_jobs>1); "
+    "a race has no deterministic witness, so that combination is excluded from the sweep and counted as skipped until findings/C12-tsf-shared-generator.patch lands",
     "estimators that cannot run in this sandbox (soft dependencies, compiled extensions, sklearn-1.7 parameter validation) are covered by the static tie only",
 ]
 RULE = ("per runnable estimator (forecasters incl. composites, series / panel transformers, TSF/RISE/BOSS-family classifiers, TSF regressor) x containers "
         "(Series/DataFrame, nested DataFrame/3D array, RangeIndex/Int64Index) x seeded data (outliers, NaN) x random interleavings of repeated apply-type calls "
-        "on the original, on equal-parameter twins (n_jobs None/1/2/4, threading backend) and on a pickled copy; forecaster histories through the state-machine "
-        "model; Hampel filter against its Lean model; Parallel under induced completion orders; one static source walk. distinct by driver line; "
-        "non-trivial = at least one apply-type call returned a value")
+        "on the original, on equal-parameter twins (n_jobs None/1/2/4, threading backend), on a freshly fitted twin per call and on a pickled copy; forecasters: "
+        "out-of-sample, in-sample and mixed horizons, relative and absolute, on ONE object, with a state digest (cutoff, remembered series, fitted flag, window "
+        "length) before/after every call; every estimator with a random_state: seed forms 0, positive int, np.int64, RandomState instance built equal per copy "
+        "(instance form skipped, and counted, where an apply-type method draws from it or the docstring says int only; time series forests: sequential twins only, "
+        "see findings 4); forecaster histories through the state-machine model with the same horizon kinds; Hampel filter against its Lean model; Parallel under "
+        "induced completion orders; one static source walk (global random, random_state truthiness tests, writes to self, unordered collection). distinct by driver "
+        "line; non-trivial = at least one apply-type call returned a value")
 LEVEL_TEXT = ("PARTIAL by nature. Lean 4 theorems over executable models: for the forecaster state machine (any core, both horizon mixins) predict leaves "
               "everything a later call can depend on unchanged except the stored horizon, a call returns the same result after any interleaving of other "
               "predict calls, update_predict has the net effect 'windows merged, cutoff restored', equal parameters + equal data give equal results; for any "
